@@ -3,9 +3,16 @@ PROPERTY = "C15"
 LEVEL = "proof"
 FUNCTIONS = ['uxarray.grid.geometry._pad_closed_face_nodes',
     'uxarray.grid.grid.Grid.to_linecollection',
-    'uxarray.grid.grid.Grid.to_polycollection']
-STANDINS = ["geometry_export"]
+    'uxarray.grid.grid.Grid.to_polycollection',
+    'uxarray.grid.geometry._grid_to_polygon_geodataframe@split,geopandas',
+    'uxarray.grid.geometry._grid_to_polygon_geodataframe@split,spatialpandas',
+    'uxarray.grid.geometry._grid_to_polygon_geodataframe@ignore,geopandas',
+    'uxarray.grid.geometry._grid_to_polygon_geodataframe@ignore,spatialpandas',
+    'uxarray.grid.geometry._grid_to_polygon_geodataframe@exclude,geopandas',
+    'uxarray.grid.geometry._grid_to_polygon_geodataframe@exclude,spatialpandas',
+    'uxarray.grid.grid.Grid.to_geodataframe']
+STANDINS = ["geometry_export", "gdf_frames"]
 ASSUMPTIONS = []
 EXPLANATION = ""
-LEVEL_TEXT = '_pad_closed_face_nodes proved (loop invariant): row = corners then copies of the first corner; to_linecollection / to_polycollection proved to depend only on their arguments from every cache state (polycollection returns a private deep copy); vertices, antimeridian handling, data alignment bounded'
-LEVEL_NOTE = 'matplotlib/shapely/cartopy/antimeridian builders as uninterpreted functions; to_geodataframe cache not under contract (8 known findings)'
+LEVEL_TEXT = '_pad_closed_face_nodes proved (loop invariant): row = corners then copies of the first corner; to_linecollection / to_polycollection / to_geodataframe proved to depend only on their arguments from every cache state (polycollection returns a private deep copy; the GeoDataFrame cache-miss value is proved to be a function of exactly the cache key, over all pairs of paths); _grid_to_polygon_geodataframe proved non-interferent: its frame, NaN side table and the antimeridian side table it leaves on the grid depend on (grid, projection, project) only; vertices, antimeridian handling, data alignment bounded'
+LEVEL_NOTE = 'matplotlib/shapely/cartopy/antimeridian builders as uninterpreted functions; abstract mode (library calls / operators on uninterpreted values are deterministic pure functions); geometry builders summarised; Grid accessors assumed stable (C08)'
